@@ -148,7 +148,9 @@ def context_for(ev, sp, rng):
         elif mcv == "OHc":
             epi = [("OHp", b"", False), ("OHr", b"", False)]
         elif mcv == "OAs":
-            vals = {"cpu": 1}; pl = obs.i32(1)
+            # the other CPU, or the CPU the thread is on already (nothing changes)
+            c = rng.choice([1, 0])
+            vals = {"cpu": c}; pl = obs.i32(c)
         elif mcv == "OAr":
             # the target is a thread of the same process, or of the second or third process of the loom
             tgt = rng.choice([11, 12, 13])
@@ -199,7 +201,7 @@ def context_for(ev, sp, rng):
     return pro, (mcv, pl, ev["jumbo"]), epi, vals
 
 
-def base_trace(wd, events, require_all=True):
+def base_trace(wd, events, require_all=True, phy=(0, 1)):
     """Thread 10 runs `events` between OHx and OHe; thread 11 (same process) and
     threads 12 and 13 (two more processes of the loom) are alive."""
     req = {n: v for (n, v) in histgen.REQUIRE.values()} if require_all else None
@@ -213,7 +215,7 @@ def base_trace(wd, events, require_all=True):
     h10.append((t, "OHe", b"", False))
     h11 = [(101, "OHx", obs.i32(-1, 11, 0), False), (t + 5, "OHe", b"", False)]
     shutil.rmtree(wd, ignore_errors=True)
-    obs.write_stream(wd, "L", 1, 10, obs.thread_meta(10, 1, "L", cpus=[(0, 0), (1, 1)], require=req, extra=extra), h10)
+    obs.write_stream(wd, "L", 1, 10, obs.thread_meta(10, 1, "L", cpus=[(0, phy[0]), (1, phy[1])], require=req, extra=extra), h10)
     obs.write_stream(wd, "L", 1, 11, obs.thread_meta(11, 1, "L", require=req, extra=extra), h11)
     for pid_, tid_ in ((2, 12), (3, 13)):
         h = [(101, "OHx", obs.i32(-1, tid_, 0), False), (t + 5 + tid_, "OHe", b"", False)]
@@ -228,7 +230,7 @@ def run_listed(mcv):
     chk, build, evs, sp = _CTX["chk"], _CTX["plain"], _CTX["evs"], _CTX["spec"]
     ev = evs[mcv]
     res = {"mcv": mcv, "viol": [], "judged": 0}
-    for draw in range(3):
+    for draw in range(12 if mcv in ("OAs", "OAr") else 3):
         _run_listed_once(chk, build, ev, sp, mcv, draw, res)
     # Nanos6 task execute/end also in the legacy shape that the model still accepts
     # (with a warning): a child run inline while the parent body is running and
@@ -274,7 +276,9 @@ def _run_listed_once(chk, build, ev, sp, mcv, draw, res, state=None):
         epi = epi + STATE_CTX[state][1]
     wd = os.path.join(chk.scratch, "l-%d" % os.getpid())
     try:
-        base_trace(wd, pro + [e] + epi)
+        # physical CPU ids need not equal the logical indices
+        phy = [(0, 1), (4, 5), (1, 0), (7, 2)][(draw + len(pro)) % 4] if not state else (0, 1)
+        base_trace(wd, pro + [e] + epi, phy=phy)
         r = emu.emu(build, wd)
         res["judged"] += 1
         if r.sig or r.rc not in (0, 1):
